@@ -37,6 +37,9 @@ CHECKS = {
  "C10": dict(tech="replay of the Grammar.tla corpus: parse, render, re-parse, compare (PartialEq and projected abstract syntax), re-render (fixed point); sample through `ironplcc echo | ironplcc echo`",
              text="Every derivation accepted by the parser is round-tripped; constructs whose rendering is defective at the pinned commit are quarantined by production label in known_findings.json, every other derivation must round-trip exactly.",
              ref="DESIGN.md 3.2, 5/C10"),
+ "C09": dict(tech="TLC model checking of Literal.tla (structured literal space with exact BigNat values, ValueTwoWays); every literal replayed into parse_program and the ConstantKind / AddressAssignment node compared with the specified value and expectation class",
+             text="Exhaustive over the structured literal space: bases 2/8/10/16 x magnitudes 0 .. 2^128 x signs x type prefixes x underscore patterns; reals (mantissa / fraction / exponent forms, overflow); durations of every unit with boundary and fractional values and compound forms; dates / times of day / date-and-times with every field at min, max, max+1 incl. leap years; strings incl. $-escapes; direct addresses (prefix x size x 1-3 multi-digit components incl. > 2^32). Accepted literals must have exactly the specified value; ill-formed or unrepresentable ones must be rejected with a syntax diagnostic.",
+             ref="DESIGN.md 3.3, 5/C09", note="Correct rounding of REAL to binary64 is evaluated with Python fractions from the exact rational the specification gives."),
 }
 NA = {
 }
